@@ -6,6 +6,7 @@ import (
 	"errors"
 	"io"
 	"iter"
+	"maps"
 	"path/filepath"
 	"reflect"
 	"slices"
@@ -678,8 +679,8 @@ func (h *Header) PeekMultiple(key string) []string {
 
 // AddHeaders adds multiple headers from a map.
 func (h *Header) AddHeaders(r map[string][]string) {
-	for k, v := range r {
-		for _, vv := range v {
+	for _, k := range slices.Sorted(maps.Keys(r)) {
+		for _, vv := range r[k] {
 			h.Add(k, vv)
 		}
 	}
@@ -687,9 +688,9 @@ func (h *Header) AddHeaders(r map[string][]string) {
 
 // SetHeaders sets multiple headers from a map, overriding previously set values.
 func (h *Header) SetHeaders(r map[string]string) {
-	for k, v := range r {
+	for _, k := range slices.Sorted(maps.Keys(r)) {
 		h.Del(k)
-		h.Set(k, v)
+		h.Set(k, r[k])
 	}
 }
 
@@ -709,8 +710,8 @@ func (p *QueryParam) Keys() []string {
 
 // AddParams adds multiple parameters from a map.
 func (p *QueryParam) AddParams(r map[string][]string) {
-	for k, v := range r {
-		for _, vv := range v {
+	for _, k := range slices.Sorted(maps.Keys(r)) {
+		for _, vv := range r[k] {
 			p.Add(k, vv)
 		}
 	}
@@ -718,8 +719,8 @@ func (p *QueryParam) AddParams(r map[string][]string) {
 
 // SetParams sets multiple parameters from a map, overriding previously set values.
 func (p *QueryParam) SetParams(r map[string]string) {
-	for k, v := range r {
-		p.Set(k, v)
+	for _, k := range slices.Sorted(maps.Keys(r)) {
+		p.Set(k, r[k])
 	}
 }
 
@@ -877,8 +878,8 @@ func (f *FormData) Set(key, val string) {
 
 // AddWithMap adds multiple form fields from a map.
 func (f *FormData) AddWithMap(m map[string][]string) {
-	for k, v := range m {
-		for _, vv := range v {
+	for _, k := range slices.Sorted(maps.Keys(m)) {
+		for _, vv := range m[k] {
 			f.Add(k, vv)
 		}
 	}
@@ -886,8 +887,8 @@ func (f *FormData) AddWithMap(m map[string][]string) {
 
 // SetWithMap sets multiple form fields from a map, overriding previously set values.
 func (f *FormData) SetWithMap(m map[string]string) {
-	for k, v := range m {
-		f.Set(k, v)
+	for _, k := range slices.Sorted(maps.Keys(m)) {
+		f.Set(k, m[k])
 	}
 }
 
